@@ -1173,7 +1173,12 @@ class NestedPipeFunc(PipeFunc):
     @functools.cached_property
     def func(self) -> Callable[..., tuple[Any, ...]]:  # type: ignore[override]
         func = self.pipeline.func(self.pipeline.unique_leaf_node.output_name)
-        return _NestedFuncWrapper(func.call_full_output, self.output_name)
+        output_pickers = {
+            f.output_name: f._output_picker
+            for f in self.pipeline.functions
+            if isinstance(f.output_name, tuple) and f._output_picker is not None
+        }
+        return _NestedFuncWrapper(func.call_full_output, self.output_name, output_pickers)
 
     @functools.cached_property
     def __name__(self) -> str:  # type: ignore[override]
@@ -1207,16 +1212,26 @@ class _NestedFuncWrapper:
     order specified by the output_name.
     """
 
-    def __init__(self, func: Callable[..., dict[str, Any]], output_name: OUTPUT_TYPE) -> None:
+    def __init__(
+        self,
+        func: Callable[..., dict[str, Any]],
+        output_name: OUTPUT_TYPE,
+        output_pickers: dict[tuple[str, ...], Callable[[Any, str], Any]] | None = None,
+    ) -> None:
         self.func: Callable[..., dict[str, Any]] = func
         self.output_name: OUTPUT_TYPE = output_name
+        # Custom output pickers of the inner multi-output functions
+        self.output_pickers = output_pickers or {}
         self.__name__ = f"NestedPipeFunc_{'_'.join(at_least_tuple(output_name))}"
 
     def __call__(self, *args: Any, **kwds: Any) -> Any:
         result_dict = self.func(*args, **kwds)
         for key, value in list(result_dict.items()):
             if isinstance(key, tuple):  # a multi-output function that was requested as a whole
-                result_dict.update({k: v for k, v in zip(key, value) if k not in result_dict})
+                picker = self.output_pickers.get(key)
+                for i, k in enumerate(key):
+                    if k not in result_dict:
+                        result_dict[k] = value[i] if picker is None else picker(value, k)
         if isinstance(self.output_name, str):
             return result_dict[self.output_name]
         return tuple(result_dict[name] for name in self.output_name)
